@@ -168,7 +168,9 @@ func (o *verifOutput) fn() *Function {
 
 // verifRun compiles src with opts and runs it with the given globals/args.
 func verifRun(src string, opts CompilerOptions, globals Map, args ...Object) verifOutcome {
-	bc, err := Compile([]byte(src), opts)
+	// every script may call the host function out(...) to log; declared on
+	// the first line so that line numbers are unchanged
+	bc, err := Compile([]byte("global out; "+src), opts)
 	if err != nil {
 		return verifOutcome{compErr: err}
 	}
